@@ -70,18 +70,18 @@ def flat_raise_first(ctx: Ctx, rule: str) -> None:
 
 
 def run(ctx: Ctx) -> None:
-    T.t_a2(ctx, "1/T.A2")
-    T.t_a2b(ctx, "1b/T.A2b")
-    T.t_r1(ctx, "2/T.R1")
-    T.t_s1(ctx, "3/T.S1")
-    T.t_s1c(ctx, "3c/T.S1c")
-    T.t_e1(ctx, "4/T.E1")
-    run_callers(ctx, "5")
-    N.should_rerun_table(ctx, "6")
-    N.run_decision_table(ctx, "7")
-    flat_raise_first(ctx, "7b")
-    T.t_o1(ctx, "8/T.O1")
-    T.t_p1(ctx, "8b/T.P1")
+    ctx.call(T.t_a2, "1/T.A2")
+    ctx.call(T.t_a2b, "1b/T.A2b")
+    ctx.call(T.t_r1, "2/T.R1")
+    ctx.call(T.t_s1, "3/T.S1")
+    ctx.call(T.t_s1c, "3c/T.S1c")
+    ctx.call(T.t_e1, "4/T.E1")
+    ctx.call(run_callers, "5")
+    ctx.call(N.should_rerun_table, "6")
+    ctx.call(N.run_decision_table, "7")
+    ctx.call(flat_raise_first, "7b")
+    ctx.call(T.t_o1, "8/T.O1")
+    ctx.call(T.t_p1, "8b/T.P1")
 
 
 G = "cartgraph/graph.py"
